@@ -88,7 +88,9 @@ pub fn oracle(case: &SpCase, res: &SpResult) -> (Option<(String, String)>, Vec<&
                     }
                 }
                 prev_ack = Some(p.ack);
-                // (b) never acknowledges what it has not received in order
+                // (b) never acknowledges what it has not received in order — and the FIN's number is the last one of the
+                // stream: whatever arrives numbered beyond it is not part of it
+                let contig = fin_rel.map_or(contig, |f| contig.min(f));
                 if a > contig {
                     return (Some(("ack-overstates".into(), format!("log #{}: ack_nr {} (rel {a}) but the highest contiguous seq delivered to the endpoint is rel {contig} (seq {})", r.idx, p.ack, first.wrapping_add(contig as u16)))), vec![], false, 0);
                 }
